@@ -105,7 +105,7 @@ def finish(ctx, level_text):
             knownhits.append((key, kmap[(ctx.pid, key)]["what"]))
         else:
             new.append((rule, key, detail))
-    evpath = os.path.join(VERIF, "evidence", "%s.json" % ctx.pid)
+    evpath = os.path.join(os.environ.get("VERIF_EVIDENCE_DIR", os.path.join(VERIF, "evidence")), "%s.json" % ctx.pid)
     ev = {
         "property_id": ctx.pid,
         "tier": ctx.tier,
@@ -154,7 +154,7 @@ def finish(ctx, level_text):
 
 def broken(pid, tier, seed, msg):
     """the check itself could not run: fail closed, with valid evidence"""
-    evpath = os.path.join(VERIF, "evidence", "%s.json" % pid)
+    evpath = os.path.join(os.environ.get("VERIF_EVIDENCE_DIR", os.path.join(VERIF, "evidence")), "%s.json" % pid)
     ev = {"property_id": pid, "tier": tier, "seed": seed, "level": "other",
           "coverage": {"explanation": "CHECK DID NOT RUN: " + msg, "evaluations": 0, "distinct_nontrivial": 0},
           "wall_s": 0.0, "violations": 1}
